@@ -93,6 +93,25 @@ static void run_cmd(char **a, int n) {
         queue_t *q = dirof(a[1]) ? &g_s2c : &g_c2s; size_t off = (size_t) atoi(a[2]); size_t l = q_reclen(q);
         if (off < l) { q->b[off] ^= (unsigned char) strtol(a[3], NULL, 16); printf("xor:ok"); } else printf("xor:range");
     }
+    else if (!strcmp(a[0], "flight") && n >= 3) {
+        /* deliver everything queued in a direction, cut into receive calls: all | bytes <k> | list a,b,c (cyclic) */
+        int d = dirof(a[1]); queue_t *q = d ? &g_s2c : &g_c2s; peer_t *to = d ? &g_c : &g_s;
+        size_t total = q->len; unsigned char *tmp = malloc(total + 1); memcpy(tmp, q->b, total); q->len = 0; q->mh = q->mt = 0;
+        int sizes[64], ns = 0;
+        if (!strcmp(a[2], "all")) { sizes[ns++] = (int) (total ? total : 1); }
+        else if (!strcmp(a[2], "bytes") && n >= 4) { sizes[ns++] = atoi(a[3]) > 0 ? atoi(a[3]) : 1; }
+        else if (!strcmp(a[2], "list") && n >= 4) { ns = parse_list(a[3], sizes, 64); for (int i = 0; i < ns; i++) if (sizes[i] <= 0) sizes[i] = 1; }
+        else { sizes[ns++] = (int) (total ? total : 1); }
+        printf("flight:%s n=%zu calls: ", d ? "c" : "s", total);
+        size_t off = 0; int ci = 0; g_callsep = 1;
+        while (off < total) { size_t k = (size_t) sizes[ci++ % ns]; if (k > total - off) k = total - off; feed(to, tmp + off, k, 0); off += k;
+                              if (!to->ssl || (to->ssl->flags & (SSL_FLAGS_ERROR | SSL_FLAGS_CLOSED))) { if (off < total) printf("[dead:%zu left] ", total - off); break; } }
+        g_callsep = 0; free(tmp);
+        printf("post="); print_snap(to);
+    }
+    else if (!strcmp(a[0], "tick") && n >= 2) { g_vtime += atol(a[1]); printf("tick:%ld", g_vtime); }
+    else if (!strcmp(a[0], "sendchunk") && n >= 2) { g_sendchunk = atoi(a[1]); printf("sendchunk:%d", g_sendchunk); }
+    else if (!strcmp(a[0], "wire")) printf("wire:c2s=%zu:%016llx,s2c=%zu:%016llx", g_wire_len[0], (unsigned long long) g_wire_hash[0], g_wire_len[1], (unsigned long long) g_wire_hash[1]);
     else if (!strcmp(a[0], "q")) printf("q:c2s=%d,s2c=%d", qcount(&g_c2s), qcount(&g_s2c));
     else if (!strcmp(a[0], "st")) { printf("st:c="); print_snap(&g_c); printf(" s="); print_snap(&g_s); }
     else printf("?%s", a[0]);
